@@ -69,7 +69,7 @@ const hshards = 4
 func historyPart(r *runner.Run) {
 	var jobs []hjob
 	for s := 0; s < hshards; s++ {
-		jobs = append(jobs, hjob{"memory", runner.Pick(r, 6, 7), s}, hjob{"sqlite", runner.Pick(r, 4, 6), s})
+		jobs = append(jobs, hjob{"memory", runner.Pick(r, 7, 8), s}, hjob{"sqlite", runner.Pick(r, 5, 6), s})
 	}
 	budget := runner.Pick(r, 40*time.Second, 8*time.Minute)
 	if ji, ok := runner.Job(); ok {
